@@ -81,12 +81,14 @@ def harness_sources(crate):
             rel = os.path.relpath(path, srcdir)[:-3].replace(os.sep, "::")
             if rel.endswith("::mod"):
                 rel = rel[:-5]
+            if rel == "lib":
+                rel = ""
             txt = open(path).read()
             for m in re.finditer(r"((?:\s*(?:///[^\n]*|#\[[^\]]*\])\s*\n?)*)\s*fn (\w+)\(\)\s*\{", txt):
                 attrs, name = m.group(1), m.group(2)
                 um = re.search(r"kani::unwind\((\d+)\)", attrs)
                 doc = " ".join(x.strip()[3:].strip() for x in attrs.splitlines() if x.strip().startswith("///"))
-                res[rel + "::" + name] = {"unwind": int(um.group(1)) if um else None, "doc": doc, "file": path}
+                res[(rel + "::" + name) if rel else name] = {"unwind": int(um.group(1)) if um else None, "doc": doc, "file": path}
     return res
 
 
